@@ -1541,6 +1541,90 @@ func (c *C14Case) runCLI(ctx *Ctx, o *Outcome, al align.Alignment) {
 		}},
 		job{"stats alleles", func() (string, bool) { return fmt.Sprintln(al.AvgAllelesPerSite()), true }},
 	)
+	// character counts: of the alignment, per site, per sequence; all characters or one (present or not)
+	onlyCands := []string{"*", "*", "A", "-", "N", "G", "Q", "X", "L"}
+	for _, mode := range []string{"", " --per-sites", " --per-sequences"} {
+		for _, only := range onlyCands {
+			a := "stats char" + mode
+			if only != "*" {
+				a += " --only " + only
+			}
+			jobs = append(jobs, job{a, func() (string, bool) {
+				cs := al.CharStats()
+				var keys []string
+				var total int64
+				for k, v := range cs {
+					keys = append(keys, string(k))
+					total += v
+				}
+				if _, ok := cs[only[0]]; !ok && only != "*" {
+					keys = append(keys, only)
+				}
+				sort.Strings(keys)
+				var sb strings.Builder
+				switch mode {
+				case "":
+					sb.WriteString("char\tnb\tfreq\n")
+					for _, k := range keys {
+						if only == "*" || k == only {
+							fmt.Fprintf(&sb, "%s\t%d\t%f\n", k, cs[k[0]], float64(cs[k[0]])/float64(total))
+						}
+					}
+				case " --per-sequences":
+					sb.WriteString("seq")
+					for _, k := range keys {
+						if only == "*" || k == only {
+							sb.WriteString("\t" + k)
+						}
+					}
+					sb.WriteString("\n")
+					for i := 0; i < al.NbSequences(); i++ {
+						m, err := al.CharStatsSeq(i)
+						if err != nil {
+							return "", false
+						}
+						nm, _ := al.GetSequenceNameById(i)
+						sb.WriteString(nm)
+						for _, k := range keys {
+							if only == "*" || k == only {
+								fmt.Fprintf(&sb, "\t%d", m[k[0]])
+							}
+						}
+						sb.WriteString("\n")
+					}
+				default:
+					// one column per character of the count profile, in its order; a character the alignment does
+					// not hold has a column of zeros
+					pf := align.NewCountProfileFromAlignment(al)
+					var cols []int
+					sb.WriteString("site")
+					for i := 0; i < pf.NbCharacters(); i++ {
+						r, _ := pf.NameAt(i)
+						if only == "*" || r == only[0] {
+							cols = append(cols, i)
+							fmt.Fprintf(&sb, "\t%c", r)
+						}
+					}
+					if len(cols) == 0 {
+						sb.WriteString("\t" + only)
+					}
+					sb.WriteString("\n")
+					for site := 0; site < al.Length(); site++ {
+						fmt.Fprintf(&sb, "%d", site)
+						for _, i := range cols {
+							cnt, _ := pf.CountAt(i, site)
+							fmt.Fprintf(&sb, "\t%d", cnt)
+						}
+						if len(cols) == 0 {
+							sb.WriteString("\t0")
+						}
+						sb.WriteString("\n")
+					}
+				}
+				return sb.String(), true
+			}})
+		}
+	}
 	pr := NewRand(Mix(c.MapSeeds[0], "cli-jobs"))
 	files := map[string]string{"in.fa": fastaOf(c.Aln.Names, c.Aln.Seqs)}
 	for k := 0; k < c.Cli; k++ {
